@@ -18,7 +18,7 @@ for p in props:
         "evidence_file": "/verif/evidence/%s.json" % pid,
         "replay_cmd_template": "./check %s --replay {path}" % pid,
         "engine": "lean+harness",
-        "level_claimed": {"category": "proof", "text": c["level_text"], "design_ref": "DESIGN.md section " + c.get("design_ref", "8")},
+        "level_claimed": {"category": c.get("level", "proof"), "text": c["level_text"], "design_ref": "DESIGN.md section " + c.get("design_ref", "8")},
         "level_note": c["level_note"],
         "technique": c.get("technique", "Lean 4 theorems about an executable model + Go/Lean correspondence check + generated source facts"),
     })
